@@ -188,6 +188,7 @@ package invocation
 //@   assigns [C20] nothing
 //@
 //@ func tokenFromModel
+//@   ensures [C09] total: true
 //@   requires m.Args != nil && m.Args.Values != nil && (forall k string :: has(m.Args.Values, k) ==> m.Args.Values[k] != nil)
 //@   ensures [C06] issuer: result1 == nil ==> result0.issuer == parsedDID(m.Iss)
 //@   ensures [C10] wellformed: result1 == nil ==> result0 != nil && wfInv(result0)
@@ -212,6 +213,7 @@ package invocation
 //@   ensures result != nil
 //@
 //@ func FromIPLD
+//@   ensures [C09] total: true
 //@   requires node != nil && bindnodeInvModelsWF()
 //@   requires forall x any :: unwrapped(x) && x is *tokenPayloadModel ==> x.(*tokenPayloadModel) != nil      // bindnode never boxes a nil model pointer
 //@   use node_sizes, node_map_children
@@ -221,15 +223,18 @@ package invocation
 //@
 //@ // ---- decoders from bytes: decode, then the verified FromIPLD -------------------------------------------
 //@ func Decode
+//@   ensures [C09] total: true
 //@   requires decFn != nil
 //@   requires bindnodeInvModelsWF() && (forall x any :: unwrapped(x) && x is *tokenPayloadModel ==> x.(*tokenPayloadModel) != nil)
 //@   use node_sizes, node_map_children
 //@   ensures [C06,C10] envelope: result1 == nil ==> envelopeVerified(decodeWith(decFn, bytes(b)), Tag)
 //@ func FromDagCbor
+//@   ensures [C09] total: true
 //@   requires bindnodeInvModelsWF() && (forall x any :: unwrapped(x) && x is *tokenPayloadModel ==> x.(*tokenPayloadModel) != nil)
 //@   use node_sizes, node_map_children
 //@   ensures [C06,C10] envelope: result1 == nil ==> envelopeVerified(decodeWith(dagcbor.Decode, bytes(data)), Tag)
 //@ func FromSealed
+//@   ensures [C09] total: true
 //@   requires bindnodeInvModelsWF() && (forall x any :: unwrapped(x) && x is *tokenPayloadModel ==> x.(*tokenPayloadModel) != nil)
 //@   use node_sizes, node_map_children
 //@   ensures [C06,C10] envelope: result2 == nil ==> envelopeVerified(decodeWith(dagcbor.Decode, bytes(data)), Tag)
@@ -268,6 +273,7 @@ package invocation
 //@   use node_sizes, node_map_children
 //@   assigns anything
 //@ func FromSealedReader
+//@   ensures [C09] total: true
 //@   requires r != nil
 //@   requires bindnodeInvModelsWF() && (forall x any :: unwrapped(x) && x is *tokenPayloadModel ==> x.(*tokenPayloadModel) != nil)
 //@   use node_sizes, node_map_children
